@@ -229,6 +229,12 @@ def check(ctx):
             if rng.random() < 0.3:
                 c.cuts = (rng.choice([1, 3, -2]),)
             reads = [S.make_read(rng, i, [], False) for i in range(rng.choice([1, 4, 10]))]
+            if rng.random() < 0.25 and len(reads) > 1:
+                # consecutive reads with one and the same quality string (binned qualities) but different bases and G tails
+                L = min(len(sq) for _, sq, _ in reads)
+                qs = reads[0][2][:L]
+                reads = [(nm, "".join(rng.choice("ACGT") for _ in range(L - k_)) + "G" * k_, qs)
+                         for (nm, sq, ql), k_ in zip(reads, [rng.randint(0, max(0, L // 2)) for _ in reads]) if L > 0] or reads
             if rng.random() < 0.4:
                 # the same Phred values written with base 64; some reads start or end with characters below '@' (negative values)
                 c.qbase = 64
@@ -261,6 +267,19 @@ def check(ctx):
                         ctx.violation("system: -q at the command line does not trim as the BWA rule says",
                                       {"case": ["system", res["argv"][5:-1]], "reads": [list(x) for x in reads], "observed": [nm, sq, ql], "expected": [sq0[a:b], ql0[a:b]],
                                        "why": "read %s: -q %s gives %r, the rule gives %r" % (nm, c.qcut, sq, sq0[a:b])})
+                        break
+            if c.qcut is not None and c.nextseq is not None:
+                # both given: the NextSeq step runs first, the -q step then works on what is left
+                parts = [int(x) for x in c.qcut.split(",")]
+                cf, cb = (0, parts[0]) if len(parts) == 1 else parts
+                for (nm, sq, ql), (_, sq0, ql0) in zip(res["files"].get(0, []), cut_only["files"].get(0, [])):
+                    b1 = spec_3p([(c.nextseq - 1) if bb == "G" else (ord(x) - c.qbase) for bb, x in zip(sq0, ql0)], c.nextseq)
+                    sq1, ql1 = sq0[:b1], ql0[:b1]
+                    a, b = (0, len(sq1)) if c.qcut == "0" else spec_index([ord(x) - c.qbase for x in ql1], cf, cb)
+                    if sq != sq1[a:b] or ql != ql1[a:b]:
+                        ctx.violation("system: --nextseq-trim followed by -q does not trim as the two rules say",
+                                      {"case": ["system", res["argv"][5:-1]], "reads": [list(x) for x in reads], "observed": [nm, sq, ql], "expected": [sq1[a:b], ql1[a:b]],
+                                       "why": "read %s: --nextseq-trim %d then -q %s gives %r, the rules give %r" % (nm, c.nextseq, c.qcut, sq, sq1[a:b])})
                         break
             if c.qcut is None and c.nextseq is not None:
                 # --nextseq-trim alone: the 3' rule with every G counted as cutoff - 1, qualities decoded with the given base
